@@ -273,6 +273,17 @@ func hostile(rng *rand.Rand, g *fixture.Geo, r *swarm.Remote) hmsg {
 			ms := int64(len(g.Info()))
 			e.MetadataSize = &ms
 			cls += " true-metadata_size"
+		case 7:
+			// a size vote from a peer that does not speak ut_metadata (key absent, or number 0 = disabled):
+			// nothing may be asked of it
+			ms := int64([]int64{int64(len(g.Info())), 16384, 40000}[rng.IntN(3)])
+			e.MetadataSize = &ms
+			if rng.IntN(2) == 0 {
+				delete(e.M, "ut_metadata")
+			} else {
+				e.M["ut_metadata"] = 0
+			}
+			cls += " metadata_size-without-ut_metadata"
 		}
 		return enc(refwire.Msg{Kind: refwire.KExtended, Sub: 0, Data: e.Payload()}, cls)
 	case x < 72: // PEX
